@@ -223,5 +223,8 @@ func (s EngineSpec) PartitionOf(row map[string]any) string {
 	return s.Part.Fn(row)
 }
 
+// PartByKey exposes the by-key partition function (rows without the key go to "none").
+func PartByKey(key string) PartFunc { return PartFunc{Name: "byKey:" + key, Fn: partByKey(key)} }
+
 // PickPartFuncBucket exposes the bucket partition function.
 func PickPartFuncBucket(n int) bs.PartitionFunc { return partByVidBucket(n, false) }
